@@ -168,7 +168,7 @@ theorem splitM_shaped (env : Env) (hlim : env.limit = none) (f : Val → Val) :
       rw [splitM]
       simp only [hvlen, if_true, hstep]
       have hne : ¬ prodL (d' :: ds') = 0 := by omega
-      simp only [hne, if_false, Dec.bind_apply, request_none hlim]
+      simp only [hne, if_false, Dec.bind_apply, requestAt_none hlim]
       have hloop := splitLoop_rows (g := fun vals a b => splitM env vals false (d' :: ds') a b) (f := f)
         (Q := Shaped (d' :: ds')) (k := (d' :: ds').length) hp s
         (fun x pre post hx => ih x pre post s (by simp) hpos' hx) xs pre post
